@@ -13,7 +13,9 @@ removals and calls and follows the content of the directories with a model;
 error; the standard output of a minisat-style program) and varies the byte layout of the
 answer itself (line ends, separators, one write or many); 'consumption' hands formulas
 of 65 KiB .. 3 MiB of DIMACS to programs that take their input in different ways (all of it,
-slowly, only a prefix, nothing; closing it early; writing a large answer first).
+slowly, only a prefix, nothing; closing it early; writing a large answer first);
+'tempfiles' also runs 2 or 3 calls at the same time in threads of this process, each on its own formula,
+interleaved in an order the harness enforces through gated programs (see the overlapping calls section).
 """
 import io
 import os
@@ -40,6 +42,7 @@ ASSUMPTIONS = [
     "only standard output (DIMACS conventions) or the result file (minisat convention) carries the answer: whatever the program writes on standard error (any bytes), and whatever a minisat-style program prints on its standard output (any bytes), is not part of it and does not change verdict or model",
     "standard output of a DIMACS-convention solver is ASCII text whose lines are comment lines ('c...'), blank lines, one 's' line and 'v' lines; line ends LF or CRLF; tokens of a 'v' line separated by blanks and tabs; the last line may lack its line end; the text may arrive in several writes",
     "a solver may stop reading its input as soon as it knows the answer (or close it and go on working), may read it in pieces of any size at its own pace, and may put any amount of text on its standard output before it has read its input: in all these cases the verdict/model it prints is the answer; a scripted solver of 'consumption' waits only for input, end of input or room in its output pipe, each wait guarded by 60 s (never reached on a working bridge)",
+    "overlapping calls: solve() / is_satisfiable() may be called from several threads of one process at the same time on different formulas (nothing in the documentation restricts them to one call at a time, and the bridge keeps no documented state between calls); the calls are expected not to wait for each other: a scheduled point that is not reached within 30 s is reported; each call is told apart by an option '--tag=k' of its command line (an argument starting with '-' is an option)",
     "names of the temporary directory and of PATH entries: any characters but tab, newline, NUL, '/' (and ':' in PATH); the path is absolute; tokens of a command line are separated by one or more blanks, blanks around it are allowed",
 ]
 
@@ -509,6 +512,8 @@ def run_verdict(case):
 
 
 def run_tmp(case):
+    if case.get('overlap'):
+        return run_overlap(case)
     R = execute(case)
     check_tmp(case, R)
     L = labels_of(case, R)
@@ -520,6 +525,290 @@ def run_tmp(case):
             L.append('after-' + type(o.exc).__name__)
     L = sorted(set(L))
     return Outcome(labels=L, nontrivial=bool(R['obs'][0].calls), rejected=R['expect'] != 'verdict')
+
+
+# ---------------------------------------------------------------------------
+# overlapping calls in one process (cases with 'overlap', sub-check 'tempfiles')
+#
+#   case['overlap'] = {'template': name of the interleaving (for the labels),
+#                      'calls': [{'nvars', 'clauses', 'blocks', 'pick', 'what': 'solve' | 'is_satisfiable',
+#                                 'mode': 'named' | 'sameas', 'solver', 'exe', 'flags'}, ...]      2 or 3 calls
+#                      'steps': [['launch', k], ['wait', k, 'started' | 'read' | 'done' | 'returned'],
+#                                ['release', k, 'start' | 'answer'], ...]}
+#   case['shape']   = the layout of the answers (status 'answer')
+#
+# Call k runs in its own thread of this process on its own formula (the formulas of a case differ pairwise) with
+# the command line '<program> --tag=k [options]'.  The programs are gated (vlib/fakesolver.py): they report
+# 'started' / 'read' (input read to the end) / 'done' through a FIFO and wait at the gates 'start' (before the
+# input is opened) and 'answer' (after it was read) that a ['release', k, gate] step names, until the main thread
+# opens them.  The main thread executes the steps in order: the interleaving of the calls is the one the case
+# describes, whatever the machine does; nothing is measured and no pause is used.  A program answers for the
+# formula it RECEIVED (it knows the truthful answer of every formula of the case, in its own convention).
+# Oracle: every call returns - no exception - the verdict and the model of ITS OWN formula; the one run that
+# carries its tag was of the program its command line names, got its options and received its formula; every
+# point of the schedule was reached (a guard of 30 s, and of 60 s in the programs, turns calls that wait for each
+# other into a finding); the directory for temporary files is empty when all calls have returned; the formulas
+# are as they were.
+
+OVERLAP_TEMPLATES = ('held-at-start', 'held-before-answer', 'together', 'together-reversed', 'crossing', 'chain',
+                     'stacked', 'queued')
+
+
+def overlap_steps(template, order):
+    """The steps of an interleaving of the calls listed in `order` (first = the one launched first)."""
+    L = lambda k: ['launch', k]
+    W = lambda k, e: ['wait', k, e]
+    R = lambda k, g: ['release', k, g]
+    a, rest = order[0], list(order[1:])
+    if template in ('held-at-start', 'held-before-answer'):
+        # a starts first; the others run from start to end while a has not opened its input / has read it but not answered
+        gate, ev = ('start', 'started') if template == 'held-at-start' else ('answer', 'read')
+        s = [L(a), W(a, ev)]
+        for b in rest:
+            s += [L(b), W(b, 'returned')]
+        return s + [R(a, gate), W(a, 'returned')]
+    if template in ('together', 'together-reversed'):
+        # all are started before any opens its input; all have read before any answers
+        s = [L(k) for k in order] + [W(k, 'started') for k in order] + [R(k, 'start') for k in order]
+        s += [W(k, 'read') for k in order]
+        for k in (order if template == 'together' else order[::-1]):
+            s += [R(k, 'answer'), W(k, 'returned')]
+        return s
+    if template == 'crossing':
+        # a has read its input when b starts; a answers and returns while b has not opened its input
+        b, more = rest[0], rest[1:]
+        s = [L(a), W(a, 'read'), L(b), W(b, 'started')]
+        for c in more:
+            s += [L(c), W(c, 'returned')]
+        return s + [R(a, 'answer'), W(a, 'returned'), R(b, 'start'), W(b, 'returned')]
+    if template == 'chain':
+        # a waits before opening its input, b starts and reads, a goes on and returns, then b answers
+        b, more = rest[0], rest[1:]
+        s = [L(a), W(a, 'started'), L(b), W(b, 'read')]
+        for c in more:
+            s += [L(c), W(c, 'returned')]
+        return s + [R(a, 'start'), W(a, 'returned'), R(b, 'answer'), W(b, 'returned')]
+    if template == 'stacked':
+        # each starts while the former ones wait before opening their input; last in, first out
+        s = []
+        for k in order:
+            s += [L(k), W(k, 'started')]
+        for k in order[::-1]:
+            s += [R(k, 'start'), W(k, 'returned')]
+        return s
+    if template == 'queued':
+        # each reads its input while the former ones wait before answering; first in, first out
+        s = []
+        for k in order:
+            s += [L(k), W(k, 'read')]
+        for k in order:
+            s += [R(k, 'answer'), W(k, 'returned')]
+        return s
+    raise ValueError(template)
+
+
+def _overlap_plan(steps, ncalls):
+    """{call: [gates]} of a list of steps; the steps are checked to be executable by calls that do not wait for
+    each other (a wait names an event its call can reach with the gates opened so far)."""
+    gates = {}
+    for st in steps:
+        if st[0] == 'release':
+            if st[2] not in fs.Stage.GATES or st[2] in gates.setdefault(st[1], []):
+                raise ValueError("bad step {}".format(st))
+            gates[st[1]].append(st[2])
+    launched, opened = set(), set()
+    for st in steps:
+        k = st[1]
+        if not (isinstance(k, int) and 0 <= k < ncalls):
+            raise ValueError("bad step {}".format(st))
+        if st[0] == 'launch':
+            if k in launched:
+                raise ValueError("call {} launched twice".format(k))
+            launched.add(k)
+        elif k not in launched:
+            raise ValueError("step {} before the launch of the call".format(st))
+        elif st[0] == 'release':
+            opened.add((k, st[2]))
+        elif st[0] == 'wait':
+            need = {'started': [], 'read': ['start'], 'done': ['start', 'answer'], 'returned': ['start', 'answer']}[st[2]]
+            if any(g in gates.get(k, []) and (k, g) not in opened for g in need):
+                raise ValueError("step {} waits for an event behind a closed gate".format(st))
+        else:
+            raise ValueError("bad step {}".format(st))
+    if launched != set(range(ncalls)):
+        raise ValueError("not every call is launched")
+    return gates
+
+
+def _steps_text(steps):
+    return ', '.join('{} {}{}'.format(st[0], st[1], ' ' + st[2] if len(st) > 2 else '') for st in steps)
+
+
+def run_overlap(case):
+    import threading
+    from vlib.core import exception_in_tree, short_tb
+    from cnfgen.utils.solver import supported_satsolvers
+    ov = case['overlap']
+    calls, steps, shape = ov['calls'], ov['steps'], case['shape']
+    if not 2 <= len(calls) <= 3 or shape['status'] != 'answer':
+        raise ValueError("an overlap case has 2 or 3 calls of programs that answer")
+    gates = _overlap_plan(steps, len(calls))
+    supported = list(supported_satsolvers())
+    status = lambda verdict: (10 if verdict else 20) if shape.get('exit', 'std') == 'std' else 0
+    infos = []
+    programs = {}
+    for k, c in enumerate(calls):
+        F = build_formula(c)
+        n = F.number_of_variables()
+        clauses = [list(x) for x in F]
+        verdict, model = answer_of(c, n, clauses)
+        flags = ['--tag={}'.format(k)] + list(c.get('flags') or [])
+        if c['mode'] not in ('named', 'sameas'):
+            raise ValueError("an overlap case names its programs")
+        target, cmd, sameas = resolve_call(c, flags)
+        beh = fs.behaviour_of(sameas if c['mode'] == 'sameas' else target)
+        if programs.setdefault(target, beh) != beh:
+            raise ValueError("program {} with two conventions in one case".format(target))
+        expect, _, chosen = expected_outcome(c['mode'], target, sameas, {target: 'ok'}, supported, True)
+        if expect != 'verdict':
+            raise ValueError("an overlap case needs supported names")
+        infos.append({'F': F, 'n': n, 'clauses': clauses, 'verdict': verdict, 'model': model, 'flags': flags,
+                      'target': target, 'cmd': cmd, 'sameas': sameas, 'beh': beh, 'what': c['what'], 'mode': c['mode'],
+                      'key': fs.formula_key(n, clauses)})
+    if len(set(i['key'] for i in infos)) != len(infos):
+        # generated formulas may coincide: such a case says nothing about who received what
+        return Outcome(labels=['overlap-equal-formulas'], nontrivial=False, rejected=True)
+    results = [None] * len(calls)
+    with fs.Sandbox() as sb:
+        for name, beh in sorted(programs.items()):
+            answers = {}
+            for i in infos:
+                out, res = fs.consumer_output(beh, i['verdict'], i['model'], shape, i['n'])
+                answers[i['key']] = (out, res, status(i['verdict']))
+            sb.install_gated(name, beh, gates, answers)
+        with fs.Stage(sb, gates) as stage:
+
+            def worker(k):
+                i = infos[k]
+                try:
+                    if i['what'] == 'solve':
+                        results[k] = ('value', i['F'].solve(cmd=i['cmd'], sameas=i['sameas']))
+                    else:
+                        results[k] = ('value', i['F'].is_satisfiable(cmd=i['cmd'], sameas=i['sameas']))
+                except BaseException as e:      # noqa - judged by the main thread
+                    results[k] = ('exc', e)
+                finally:
+                    stage.post(k, 'returned')
+
+            threads = []
+            old_err = sys.stderr
+            sys.stderr = io.StringIO()
+            try:
+                for st in steps:
+                    if st[0] == 'launch':
+                        t = threading.Thread(target=worker, args=(st[1],), daemon=True)
+                        threads.append(t)
+                        t.start()
+                    elif st[0] == 'release':
+                        stage.release(st[1], st[2])
+                    elif not stage.wait(st[1], st[2]):
+                        break                       # the schedule cannot be followed any more: let everybody finish
+                stage.release_all()
+                for k in range(len(threads)):
+                    stage.wait(k, 'returned')
+                for t in threads:
+                    t.join(timeout=fs.WATCHDOG_S + 10)
+                stage.drain()
+            finally:
+                sys.stderr = old_err
+            alive = [k for k, t in enumerate(threads) if t.is_alive()]
+            runs = stage.runs()
+            missed = list(stage.missed)
+            seen = list(stage.seen)
+        left = sb.leftovers()
+        sb.clear_tmp()
+        root = sb.root
+    if os.path.exists(root):
+        raise RuntimeError("harness: scratch directory {} not removed".format(root))
+
+    def show(k):
+        i = infos[k]
+        return "call {}: {}(cmd={!r}{}) on p cnf {} {} {}".format(
+            k, i['what'], i['cmd'], '' if i['sameas'] is None else ', sameas={!r}'.format(i['sameas']),
+            i['n'], len(i['clauses']), i['clauses'][:6])
+
+    ctx = ("{} calls overlapping in one process, each in its own thread; {}; interleaving '{}' enforced through the "
+           "programs: {}; events observed: {}").format(
+        len(calls), '; '.join(show(k) for k in range(len(calls))), ov.get('template', '?'), _steps_text(steps),
+        ' '.join('{}:{}'.format(t, e) for t, e in seen))
+    if alive:
+        raise Violation("the calls {} never returned; {}".format(alive, ctx))
+    by_key = dict((i['key'], k) for k, i in enumerate(infos))
+    labels = ['overlap', 'overlap:' + ov.get('template', '?'), 'overlap-calls={}'.format(len(calls))]
+    for k, i in enumerate(infos):
+        kind, val = results[k]
+        mine = [r for r in runs if r['tag'] == str(k)]
+        got = None
+        for r in mine:
+            if r['input'] is not None:
+                try:
+                    gn, gcl = fs.strict_dimacs(r['input'].decode('ascii'))
+                    got = by_key.get(fs.formula_key(gn, gcl), 'unknown')
+                except (UnicodeDecodeError, fs.DimacsError):
+                    got = 'unknown'
+        hint = ''
+        if got not in (None, k):
+            hint = " (its program received {})".format(
+                'the formula of call {}'.format(got) if got != 'unknown' else 'a text that is none of the formulas')
+        if any(r['problems'] for r in mine):
+            hint += " (its program: {})".format('; '.join(x for r in mine for x in (r['problems'] or [])))
+        if kind == 'exc':
+            if isinstance(val, (RuntimeError, ValueError)) or exception_in_tree(val):
+                raise Violation("call {} raised {}({}) [{}] although its solver is installed and answers{}; {}".format(
+                    k, type(val).__name__, str(val).strip(), short_tb(val), hint, ctx)) from val
+            raise val
+        o = _Obs()
+        o.what, o.value, o.exc, o.left = i['what'], val, None, []
+        o.calls = [{'name': r['name'], 'args': r['args'], 'input': r['input']} for r in mine]
+        R = {'n': i['n'], 'clauses': i['clauses'], 'verdict': i['verdict'], 'model': i['model'], 'mode': i['mode'],
+             'cmd': i['cmd'], 'sameas': i['sameas'], 'expect': 'verdict', 'expect_alt': None, 'chosen': i['target'],
+             'flags': i['flags'], 'supported': supported, 'installed': {i['target']: 'ok'}, 'target': i['target'],
+             'shape': shape}
+        check_observation(o, R, "call {}{}; {}".format(k, hint, ctx))
+        if any(r['stuck'] for r in mine):
+            raise Violation("call {}: its program waited in vain ({}); {}".format(
+                k, '; '.join(x for r in mine for x in (r['stuck'] or [])), ctx))
+        if [list(x) for x in i['F']] != i['clauses'] or i['F'].number_of_variables() != i['n']:
+            raise Violation("call {} modified its formula; {}".format(k, ctx))
+        conv = fs.CONVENTION_LABEL[i['beh']]
+        labels += ['overlap/' + conv, 'overlap-' + i['what'], 'overlap-' + ('sat' if i['verdict'] else 'unsat'),
+                   i['mode'], conv, 'files-passed={}'.format(len([a for a in o.calls[0]['args'] if not a.startswith('-')]))]
+    stray = [r for r in runs if r['tag'] not in [str(k) for k in range(len(calls))]]
+    if stray:
+        raise Violation("programs were run without the options of any call: {}; {}".format(
+            [(r['name'], r['args']) for r in stray], ctx))
+    if missed:
+        # the schedule could not be followed within the guard (calls that wait for each other, or a box too busy to start
+        # a program in time): the property does not promise concurrency, and a clock is no oracle - every call has been
+        # judged on its own answer above; the case is counted as rejected, not as a violation
+        return Outcome(labels=['overlap', 'overlap-schedule-not-followed'], nontrivial=False, rejected=True)
+    if left:
+        raise Violation("{} left in the directory for temporary files after all overlapping calls returned; {}".format(left, ctx))
+    names = [i['target'] for i in infos]
+    convs = [i['beh'] for i in infos]
+    verdicts = set(i['verdict'] for i in infos)
+    if len(set(names)) < len(names):
+        labels.append('overlap-same-program')
+        for i in infos:
+            if names.count(i['target']) > 1:
+                labels.append('overlap-same-program/' + fs.CONVENTION_LABEL[i['beh']])
+    if len(set(convs)) < len(convs):
+        labels.append('overlap-same-convention')
+    if len(set(convs)) > 1:
+        labels.append('overlap-mixed-conventions')
+    if len(verdicts) == 2:
+        labels.append('overlap-sat-and-unsat')
+    return Outcome(labels=sorted(set(labels)), nontrivial=len(verdicts) == 2, rejected=False)
 
 
 # ---------------------------------------------------------------------------
@@ -752,6 +1041,159 @@ def enum_tmp(tier):
             yield _mk({'mode': 'auto', 'installed': {name: 'ok'}}, f, ENUM_SHAPES[0], i)
             yield _mk({'mode': 'named', 'solver': name, 'installed': {name: 'noexec'}}, f, ENUM_SHAPES[0], i)
             yield _mk({'mode': 'named', 'solver': name, 'installed': {}}, f, ENUM_SHAPES[0], i)
+
+
+# -- overlapping calls: who calls what
+OVERLAP_PAIRS = [
+    # (mode, solver[, exe]) of the first two calls: the same program twice (both get files / both use pipes),
+    # two programs of one convention, of two conventions, unsupported programs driven with sameas
+    (('named', 'minisat'), ('named', 'minisat')),
+    (('named', 'sat4j'), ('named', 'sat4j')),
+    (('named', 'minisat'), ('named', 'march')),
+    (('named', 'cadical'), ('named', 'cadical')),
+    (('sameas', 'minisat', 'mysolver'), ('named', 'minisat')),
+    (('named', 'march'), ('named', 'sat4j')),
+    (('named', 'lingeling'), ('named', 'minisat')),
+    (('sameas', 'sat4j', 'x'), ('sameas', 'march', 'solver2.1')),
+    (('named', 'glucose'), ('named', 'glucose')),
+    (('named', 'kissat'), ('named', 'sat4j')),
+    (('sameas', 'minisat', 'my-hacked-minisat'), ('sameas', 'minisat', 'my-hacked-minisat')),
+    (('named', 'picosat'), ('named', 'cryptominisat')),
+    (('sameas', 'lingeling', 'patched-lingeling'), ('named', 'march')),
+]
+OVERLAP_SAT = [ENUM_FORMULAS[3], BIG, ENUM_FORMULAS[2], ENUM_FORMULAS[0], ENUM_FORMULAS[4]]
+OVERLAP_UNSAT = [ENUM_FORMULAS[5], ENUM_FORMULAS[1]]
+
+
+def _overlap_call(who, f, what, flags, pick):
+    c = dict(f)
+    c.update(what=what, mode=who[0], solver=who[1], flags=list(flags), pick=pick)
+    if who[0] == 'sameas':
+        c['exe'] = who[2]
+    return c
+
+
+def _overlap_case(i, template, whos, order, shape):
+    """The case number i: the callers `whos` (2 or 3), launched in `order`; call 0 gets a satisfiable formula with a
+    known model and call 1 an unsatisfiable one (every fourth case: the other way round; every fifth: two
+    satisfiable formulas with different models), call 2 another satisfiable one."""
+    sat, unsat = OVERLAP_SAT[i % len(OVERLAP_SAT)], OVERLAP_UNSAT[i % len(OVERLAP_UNSAT)]
+    other = OVERLAP_SAT[(i + 1 + i // 5 % 3) % len(OVERLAP_SAT)]
+    if other is sat:
+        other = OVERLAP_SAT[(i + 2) % len(OVERLAP_SAT)]
+    forms = [sat, other] if i % 5 == 4 else [unsat, sat] if i % 4 == 3 else [sat, unsat]
+    if len(whos) == 3:
+        forms.append(other if i % 5 != 4 else unsat)
+    calls = []
+    for k, who in enumerate(whos):
+        what = ('solve', 'is_satisfiable', 'solve')[(i + k) % 3]
+        calls.append(_overlap_call(who, forms[k], what, [[], ['-q'], ['--plain', '-v']][(i + k) % 3], i + k))
+    return {'overlap': {'template': template, 'calls': calls, 'steps': overlap_steps(template, list(order))},
+            'shape': dict(shape)}
+
+
+def enum_overlap(tier):
+    """quick: every interleaving x 6 pairs of callers (minisat twice, a file-in/stdout program twice, two
+    conventions that get files, a stdin program twice, an unsupported program with sameas next to the program itself,
+    a pair rotating through all supported names), every third case with a third caller; thorough: every interleaving
+    x every pair of OVERLAP_PAIRS and every supported name twice / next to its neighbour x every launch order."""
+    import itertools
+    names = _tree_names()
+    i = 0
+    if tier == 'quick':
+        for t, template in enumerate(OVERLAP_TEMPLATES):
+            rot = names[(2 * t) % len(names)], names[(2 * t + 1) % len(names)]
+            pairs = OVERLAP_PAIRS[:5] + [(('named', rot[0]), ('named', rot[1]))]
+            for j, pair in enumerate(pairs):
+                i += 1
+                whos = list(pair)
+                if i % 3 == 0:
+                    whos.append(('named', names[i % len(names)]) if programs_agree(whos, names[i % len(names)]) else pair[0])
+                order = list(range(len(whos)))
+                order = order[i % len(order):] + order[:i % len(order)]
+                yield _overlap_case(i, template, whos, order, ENUM_SHAPES[i % 3])
+        return
+    pairs = list(OVERLAP_PAIRS)
+    pairs += [(('named', a), ('named', a)) for a in names]
+    pairs += [(('named', a), ('named', b)) for a, b in zip(names, names[1:] + names[:1])]
+    for template in OVERLAP_TEMPLATES:
+        for pair in pairs:
+            for third in (None, ('named', names[i % len(names)])):
+                whos = list(pair)
+                if third is not None:
+                    whos.append(third if programs_agree(whos, third[1]) else pair[1])
+                for order in itertools.permutations(range(len(whos))):
+                    i += 1
+                    yield _overlap_case(i, template, whos, order, ENUM_SHAPES[i % 3])
+
+
+def programs_agree(whos, name):
+    """may the program `name` be called by name next to these callers (no program with two conventions)"""
+    return all(not (w[0] == 'sameas' and w[2] == name) for w in whos)
+
+
+_OV_TEMPLATE = st.sampled_from(OVERLAP_TEMPLATES)
+_OV_NAME = st.sampled_from(NAMES)
+_OV_EXE = st.sampled_from(EXES)
+_OV_INT = st.sampled_from(range(1000))
+_OV_WHAT = st.sampled_from(['solve', 'is_satisfiable'])
+_OV_FLAGS = st.lists(st.sampled_from(FLAGS), max_size=2, unique=True)
+
+
+@st.composite
+def strat_overlap(draw):
+    """2 or 3 callers (each a supported name or an unsupported program with sameas; the second one is the program of
+    the first in half of the cases), generated formulas, any interleaving and launch order."""
+    k = 2 + (draw(_OV_INT) % 3 == 0)
+    whos = []
+    exes = {}
+    for j in range(k):
+        a = draw(_OV_INT)
+        if j and a % 2 == 0:
+            whos.append(whos[a // 2 % j])
+            continue
+        name = draw(_OV_NAME)
+        if a % 5 == 1:
+            exe = draw(_OV_EXE)
+            if exes.setdefault(exe, fs.behaviour_of(name)) == fs.behaviour_of(name):
+                whos.append(('sameas', name, exe))
+                continue
+        whos.append(('named', name))
+    a = draw(_OV_INT)
+    order = list(range(k))
+    for _ in range(a % 6):
+        order = order[1:] + order[:1] if _ % 2 else [order[1], order[0]] + order[2:]
+    pool = OVERLAP_SAT + OVERLAP_UNSAT
+    calls = []
+    for j, who in enumerate(whos):
+        b = draw(_OV_INT)
+        f = draw(strat_formula()) if b % 3 == 0 else pool[(b // 3 + j) % len(pool)]
+        calls.append(_overlap_call(who, f, draw(_OV_WHAT), draw(_OV_FLAGS), b))
+    sh = draw(strat_shape())
+    if sh['status'] != 'answer':
+        sh = dict(ENUM_SHAPES[draw(_OV_INT) % 3])
+    template = draw(_OV_TEMPLATE)
+    return {'overlap': {'template': template, 'calls': calls, 'steps': overlap_steps(template, order)}, 'shape': sh}
+
+
+_STRAT_TMP_ANY = strat_any()
+_STRAT_OVERLAP = strat_overlap()
+_TENTH = st.sampled_from(range(10))
+
+
+@st.composite
+def strat_tmp(draw):
+    """the three plain generators; one case in ten is a case of overlapping calls"""
+    if draw(_TENTH) == 0:
+        return draw(_STRAT_OVERLAP)
+    return draw(_STRAT_TMP_ANY)
+
+
+def enum_tmp_all(tier):
+    for c in enum_tmp(tier):
+        yield c
+    for c in enum_overlap(tier):
+        yield c
 
 
 # ---------------------------------------------------------------------------
@@ -1847,12 +2289,18 @@ SUBCHECKS = [
              rule="cmd=None with a generated set of programs in bin/ (each supported name missing/ok/not executable/not a program, sometimes an unsupported program too; every single solver and every adjacent pair enumerated); oracle: exactly one run, of the first usable solver in supported_satsolvers() order, speaking its own convention; none usable -> RuntimeError",
              required_labels=_SOLVER_LABELS + _CONV + ['auto', 'auto-skips-missing', 'auto-several-installed', 'not-installed',
                                                       'no-answer', 'sat', 'unsat', 'zero-variables']),
-    SubCheck('tempfiles', run_tmp, strategy=strat_any, enumerate_cases=enum_tmp,
+    SubCheck('tempfiles', run_tmp, strategy=strat_tmp, enumerate_cases=enum_tmp_all,
              quick=400, thorough=24000,
-             rule="union of the three generators above; oracle: after solve() and after is_satisfiable() the private TMPDIR (tempfile.tempdir) of the case is empty, whatever the outcome (verdict, RuntimeError, ValueError); non-trivial: a solver was actually run",
+             rule="union of the three generators above; oracle: after solve() and after is_satisfiable() the private TMPDIR (tempfile.tempdir) of the case is empty, whatever the outcome (verdict, RuntimeError, ValueError); non-trivial: a solver was actually run. "
+                  "OVERLAPPING CALLS (one generated case in ten and an enumerated family): 2 or 3 threads of this process each call solve() or is_satisfiable() on its OWN formula (pairwise different: one satisfiable with a known model and one unsatisfiable, or two satisfiable ones with different models; 0..12 variables, fixed and generated) with cmd='<program> --tag=k [options]': the same program for all (minisat / a file-in program / a stdin program twice), programs of one or of two conventions, unsupported programs with sameas=; the programs are gated Python programs that report 'started' / 'read' / 'done' through a FIFO and wait before opening their input and/or before answering until the harness opens the gate, so the interleaving is the one the case lists, on any machine (no pause, no clock in the oracle; guards of 30 s / 60 s turn calls that wait for each other into a finding): 8 interleavings - one call held before it opens its input (resp. before it answers) while the others run from start to end; all started before any opens its input and all have read before any answers, answers released in launch order or reversed; a call that has read when the next starts and returns before that one opens its input; a call held at start while a second reads, then finishes before the second answers; last-in-first-out at the start gate; first-in-first-out at the answer gate - x launch orders; enumerated quick: each interleaving x 6 pairs of callers (a third caller in every third case), thorough: x 35 pairs x every launch order with and without a third caller. A program answers for the formula it RECEIVED (it holds the truthful answer of every formula of the case). Oracle: every call returns, without exception, the verdict and the model of its own formula; the run carrying its tag was of its program, with its options, and received exactly its formula (strict DIMACS reader); every scheduled point was reached; the temporary directory is empty once all calls returned; formulas unchanged; non-trivial: a satisfiable and an unsatisfiable formula in flight together",
              required_labels=['files-passed=0', 'files-passed=1', 'files-passed=2', 'after-RuntimeError', 'after-ValueError',
                               'no-answer:filein-fileout', 'no-answer:filein-stdout', 'no-answer:stdin-stdout',
-                              'no-answer:crash', 'not-installed', 'sat', 'unsat'] + _CONV),
+                              'no-answer:crash', 'not-installed', 'sat', 'unsat'] + _CONV
+             + ['overlap', 'overlap-calls=2', 'overlap-calls=3', 'overlap-same-program', 'overlap-same-convention',
+                'overlap-mixed-conventions', 'overlap-sat-and-unsat', 'overlap-solve', 'overlap-is_satisfiable',
+                'overlap-same-program/filein-fileout', 'overlap-same-program/filein-stdout',
+                'overlap-same-program/stdin-stdout']
+             + ['overlap:' + t for t in OVERLAP_TEMPLATES] + ['overlap/' + c for c in _CONV]),
     SubCheck('history', run_history, strategy=strat_history, enumerate_cases=enum_history,
              quick=320, thorough=16000,
              rule="one process, one PATH string (two directories of the sandbox first on it), one formula, a sequence of 2..5 steps (generated; enumerated scenarios of 2..5 steps for every supported name and for pairs of names): put a working program / a non-executable file / a non-program called like a supported solver (or the unsupported 'mysolver' used with sameas=) into a PATH directory (replacing what is there), remove one, or ask: solve()/is_satisfiable() with cmd='<name> [option]', with cmd='mysolver', sameas=<name>, with no cmd (default choice), some_solver_installed() with no argument / a name / a list; oracle: a harness-side model of the two directories gives what is reachable at the moment of EACH call: the call is answered by exactly one run of the named solver, or, without cmd, of the first reachable name in supported_satsolvers() order, with the verdict/model that solver prints; RuntimeError only when the wanted solver (any solver) is not reachable or does not answer; some_solver_installed() is true iff one of the names can be run; temporary directory empty after every call; non-trivial: the same question gets a different correct answer later in the history (found after not found, not found after found, another default solver)",
